@@ -40,6 +40,10 @@ OtherNames(v) == [m \in 1..Len(OtherPos(v)) |-> v.dims[OtherPos(v)[m]]]
 \* Tag(v, e, n): the stored value of v at extra-index e and cell n of v's grid
 Tag(w, v, e, n) == VarAtIdx(v, FullIdx(v, e, UnravelRM(KindShape(w, v.kind), n)))
 
+\* The dataset may be modified in place between calls (dataset[name] = dataset[name] + off): `Shift` is the stored
+\* value after such a modification
+Shift(x, off) == IF x = MISSING THEN MISSING ELSE x + off
+
 \* -------------------------------------------------------------- ravel view
 \* expected result of convention.ravel(v): other dims in order, then the
 \* linear dimension; data in C order
@@ -65,7 +69,7 @@ FirstGridPos(v) == CHOOSE p \in 1..Len(v.dims) : IsGridPos(v, p) /\ \A q \in 1..
 \* order) plus the request dimension, and its element at (e, k) is the value
 \* stored at extra-index e of cell ns[k].  The POSITION of the request
 \* dimension is left free (the property does not fix it).
-SelectManyOK(w, v, ns, dimname, obs) ==
+SelectManyOKOff(w, v, ns, dimname, obs, off) ==
   /\ WellFormedArray(obs)
   /\ Len(obs.dims) = Len(OtherNames(v)) + 1
   /\ dimname \in Range1(obs.dims)
@@ -76,7 +80,9 @@ SelectManyOK(w, v, ns, dimname, obs) ==
         /\ \A p \in 1..Len(obs.data) :
               LET idx == UnravelRM(obs.shape, p - 1)
                   e == SubSeq(idx, 1, q - 1) \o SubSeq(idx, q + 1, Len(idx))
-              IN obs.data[p] = (IF ns[idx[q] + 1] < 0 THEN MISSING ELSE Tag(w, v, e, ns[idx[q] + 1]))
+              IN obs.data[p] = (IF ns[idx[q] + 1] < 0 THEN MISSING ELSE Shift(Tag(w, v, e, ns[idx[q] + 1]), off))
+
+SelectManyOK(w, v, ns, dimname, obs) == SelectManyOKOff(w, v, ns, dimname, obs, 0)
 
 \* which variables a selection on grid kind k returns
 SelectedVars(w, k) == {i \in 1..Len(w.vars) : ~w.vars[i].geometry /\ w.vars[i].kind = k /\ OnGrid(w.vars[i])}
